@@ -31,7 +31,7 @@ pub struct SiteInfo {
 
 impl SiteInfo {
     pub fn to_json(&self) -> Value {
-        json!({"range": self.range, "off": self.off, "w": self.width, "op": self.kind,
+        json!({"range": if self.range == usize::MAX { -1i64 } else { self.range as i64 }, "off": self.off, "w": self.width, "op": self.kind,
                "ord": self.ord, "ordf": self.ordf, "operand": self.operand,
                "expected": self.expected, "site": format!("{}:{}", short(self.file), self.line)})
     }
